@@ -72,6 +72,18 @@ Proof.
   - not_roundtrip.
 Qed.
 
+(* an IPv6 address as host is written without brackets; the reported URI does
+   not parse (this host lies outside valid_host, which excludes ':' -- the
+   witness shows what the exclusion hides) *)
+Lemma refuted_ipv6_host :
+  exists name c u, c_host c = lit "::1" /\ c_port c = Some 3306%Z
+                   /\ build_comps name c = ROk u /\ u = lit "mysql://u:p@::1:3306/db"
+                   /\ parse_uri false u = RErr X_Value.
+Proof.
+  exists (lit "mysql"), (mk "u" "p" "::1" (Some 3306%Z) "db" []). eexists.
+  repeat split; try (vm_compute; reflexivity).
+Qed.
+
 Lemma roundtrip_full_false : ~ roundtrip_full.
 Proof.
   intros F. destruct refuted_port_without_host as (name & c & Hd & Hr & _ & _ & _ & _ & _ & Hn).
